@@ -80,7 +80,7 @@ CHECKS = {
     'C07': dict(
         level='other',
         text='Driver table with recovery on (one recover call, one error carrying its repairs, None iff repairs are empty, else '
-             'continue at the returned index); budget only shrinks and bounds the deadline; every cycle of every loop in the '
+             'continue at the returned index); the search\'s cost-bucket list is long enough for any neighbour cost when indexed; budget only shrinks and bounds the deadline; every cycle of every loop in the '
              'recovery cone is deadline-tested, iterator driven, counter bounded or consuming; every give-up exit of recover '
              'returns (unchanged index, no repairs).',
         note='Strictly increasing error positions three lexemes apart depend on what the search finds and are NOT decided. Trusted: ' + TB,
@@ -109,13 +109,15 @@ CHECKS = {
         ref='§4 C09'),
     'C10': dict(
         level='other',
-        text='One structural clause only: "numbered densely from zero, every index the API returns is in range". Fields of the '
+        text='Structural clauses: names and their spans come from the same bounds (parse_name / parse_token / their callers); the '
+             'token span table grows exactly when the token set reports a new token; nothing but that table depends on first mention; and '
+             '"numbered densely from zero, every index the API returns is in range". Fields of the '
              'grammar object that an accessor indexes with a PIdx/TIdx/RIdx are found from the accessors\' MIR; in the constructor '
              'every vector flowing into such a field must end with the length of its class leader (the vector whose len() '
              'becomes prods_len/tokens_len/rules_len): same initial length and pushes in the same straight-line regions, or '
              'a snapshot of / one push per element of the completed leader.',
-        note='The round-trip clauses of C10 (rules, symbols, precedences, %epp, actions and spans are the ones written in the '
-             'source, whatever the layout) are NOT decided: no structural fact implies them. Trusted: ' + TB,
+        note='The round-trip clauses of C10 (rules, symbols, precedences, %epp, actions are the ones written in the '
+             'source, whatever the layout) are NOT decided beyond the span and table clauses above. Trusted: ' + TB,
         technique='lock-step growth analysis of parallel tables over MIR (accessor-derived index classes, per-region push counting, def-use)',
         ref='§4 C10'),
     'C11': dict(
@@ -127,7 +129,9 @@ CHECKS = {
              '(3) No number that is a setting is narrowed with an `as` cast on its way into a flag (all integer casts enumerated). '
              '(4) The lex parser strips and tests blanks with its one white-space predicate only (no Unicode White_Space trim/is_whitespace). '
              '(5) A span built from the length of a piece line[A..] of a rule line starts at that piece (offset of the line + A), on every path. '
-             '(6) Regex text is unescaped alike with and without a start-state prefix.',
+             '(6) Regex text is unescaped alike with and without a start-state prefix; the parser\'s list of escapes it passes through '
+             'covers every escape form the regex engine interprets; one-character splits drop empty pieces; the inclusive/exclusive '
+             'kind of a start state is the constant of the declaration pattern that matched.',
         note='Decides the span-offset clause and the "flags given are the ones in force" clause structurally. Does NOT decide '
              'that rule splitting and escape rewriting denote the right regular language. Trusted: ' + TB,
         technique='def-use provenance of parser inputs + name-agreement check over resolved field indices, callee names and constant strings in MIR',
@@ -184,7 +188,8 @@ CHECKS = {
              'flag) are shown to be functions of the FINAL action cells: every bit-set happens after the last program '
              'point that can write a cell and under a decode of that cell; the per-variant contribution table, the '
              'encode/decode tag tables and goto\'s +1 encoding are enumerated exhaustively; shift/goto targets are '
-             'shown to come from the graph edge of the same symbol; gc dominates graph construction.',
+             'shown to come from the graph edge of the same symbol; gc dominates graph construction and keeps exactly a '
+             'reachability closure from the start state.',
         note='Does NOT decide that each closed state is the LR(1) closure of its core (C01). Trusted: Vob::set / '
              'SparseVec::from,get semantics; ' + TB,
         technique='MIR CFG reachability/dominance (write-after-view ordering) + exhaustive path-table extraction for encode/decode and the per-cell view table',
@@ -248,7 +253,8 @@ CHECKS = {
              'still under construction must be covered by a "not big enough" guard on that same vector that lies after '
              'its last growth and on every way from the cast to a return. State-count guards of the pager, StateGraph::new '
              'and StateTable::new and the checked lexer rule-id conversion are checked for existence and placement. The iteration '
-             'order of hash containers keyed by StorageT values (fixed hasher, but width-dependent hashes) must not reach an ordered result.',
+             'order of hash containers keyed by StorageT values (fixed hasher, but width-dependent hashes) must not reach an ordered result. '
+             'Every width refusal carries the documented "not big enough" message.',
         note='Necessary condition for "no width yields wrapped sizes/indices"; equality of results across accepted widths is '
              'not decided beyond these two conditions. 2 operand origins are trusted with a stated reason (table in rules/c20.py); 2 known '
              'findings (state numbering and the reduce/reduce conflict list differ between widths). Trusted: ' + TB,
